@@ -21,7 +21,7 @@ TRUSTED = ['numba type inference and code generation (typed lists, optional argu
 ASSUMPTIONS = ['one model stands for both runtimes: integers are unbounded in the model; the range corollaries of '
                'coq/Props/C11.v bound the indices the join kernels compute']
 BUDGET = {'quick': {'*': 2500, 'C03': 12000, 'C04': 8000, 'C08': 8000, 'C16': 6000, 'C14': 5000, 'C09': 3000,
-                    'C01': 1200, 'C05': 2500, 'C06': 2500, 'C17': 1200},
+                    'C01': 1200, 'C05': 2500, 'C06': 2500, 'C17': 1200, 'C21': 8000},
           'thorough': {'*': 20000, 'C03': 120000, 'C04': 80000, 'C08': 80000, 'C16': 60000, 'C14': 50000}}
 
 
